@@ -64,7 +64,7 @@ __version__ = "0.standin"
 LOG = []             # every call of every Env / Task since the last reset(): (obj_id, name, args, ret)
 OPTS = dict(eps_abs=1e-9, eps_rel=1e-9, max_iters=200000)    # SCS options used by Task.optimize
 LAST_TASK = [None]
-SCRIPTED = [False]      # harness switch: optimize() stores a scripted solution (xx = 1, 2, 3, ...; zeros elsewhere)
+SCRIPTED = [False]      # harness switch: optimize() stores a scripted solution (xx = 1, 2, 3, ...; barx = dyadic PSD; y, bars = 0)
 
 
 def reset():
@@ -153,6 +153,12 @@ def _val_array(a, what):
     if a.ndim != 1:
         raise ValueError("%s: one-dimensional array expected" % what)
     return [float(v) for v in a.tolist()]
+
+
+def _scripted_psd(d, salt):
+    """a dense dyadic PSD matrix B B^T (harness switch SCRIPTED only), different at every optimize"""
+    B = np.array([[((3 * i + 5 * j + salt) % 7 - 3) / 4.0 for j in range(d)] for i in range(d)]).reshape(d, d)
+    return B @ B.T
 
 
 class Env(object):
@@ -394,7 +400,8 @@ class Task(object):
             self.diagnostics = dict(status="scripted")
             self.sol = dict(prosta=prosta.prim_and_dual_feas, solsta=solsta.optimal, obj=0.0,
                             xx=np.arange(1, nvar + 1, dtype=float), y=np.zeros(ncon),
-                            barx=[np.zeros((d, d)) for d in self.barvar], bars=[np.zeros((d, d)) for d in self.barvar])
+                            barx=[_scripted_psd(d, len(self.calls)) for d in self.barvar],
+                            bars=[np.zeros((d, d)) for d in self.barvar])
             return rescode.ok
         import cvxpy as cp
         maximize = (self.sense is objsense.maximize)
@@ -502,7 +509,9 @@ class Task(object):
         return [float(M[i, j]) for j in range(n) for i in range(j, n)]       # columns one after the other
 
     def getbarxj(self, whichsol, j):
-        self._rec("getbarxj", [whichsol, j])
+        self._rec("getbarxj", [whichsol, j],
+                  self._tril(self.sol["barx"][j]) if self.sol is not None and isinstance(j, int)
+                  and 0 <= j < len(self.barvar) else None)
         s = self._need_sol(whichsol)
         j = _idx(j, "getbarxj(j)")
         if not 0 <= j < len(self.barvar):
